@@ -10,7 +10,7 @@ Empty == [media |-> <<>>, pics |-> <<>>]
 StepBad(tr, k) == LET s == IF k = 1 THEN tr.init ELSE tr.steps[k-1].t IN
                   Failing(s, tr.steps[k].a, tr.steps[k].t) \cup (IF tr.steps[k].out = "ok" THEN {} ELSE {"OperationSucceeds"})
 SavedNames == {"OnePartPerImage", "DistinctNames", "ExtAndTypeOfActualFormat", "StoredBytesExact", "PicturesShowTheirImage"}
-SavedBad(tr, i) == {n \in SavedNames : ~Holds(n, Empty, [op |-> "save", img |-> 0, args |-> "none"], tr.saved[i].t)}
+SavedBad(tr, i) == {n \in SavedNames : ~Holds(n, tr.init, [op |-> "save", img |-> 0, args |-> "none"], tr.saved[i].t)}
                    \cup (IF tr.saved[i].t.dup THEN {"DistinctNames"} ELSE {})   \* two zip members of one name
                    \cup (IF {m.img : m \in SeqSet(tr.saved[i].t.media)} = {m.img : m \in SeqSet(tr.saved[i].mem.media)} THEN {} ELSE {"SavedMediaAsInMemory"})
 Bad(tr) == {[at |-> "step", k |-> k, failing |-> StepBad(tr, k)] : k \in {j \in DOMAIN tr.steps : StepBad(tr, j) # {}}}
